@@ -498,6 +498,7 @@ func (c *handlerCtx) handleCall() {
 		}
 	}()
 
+	verifGate("handlecall.enter", c.sess)
 	c.output.SetMtype(TypeReply)
 	c.output.SetSeq(c.input.Seq())
 	c.output.SetServiceMethod(c.input.ServiceMethod())
@@ -525,10 +526,12 @@ func (c *handlerCtx) handleCall() {
 		}
 	}
 
+	verifGate("handlecall.beforeReply", c.sess)
 	// reply call
 	c.setReplyBodyCodec(!c.stat.OK())
 	c.pluginContainer.preWriteReply(c)
 	stat := c.writeReply(c.stat)
+	verifGate("handlecall.afterReply", c.sess)
 	if !stat.OK() {
 		if c.stat.OK() {
 			c.stat = stat
@@ -587,9 +590,11 @@ func (c *handlerCtx) bindReply(header Header) interface{} {
 		return nil
 	}
 	c.callCmd = _callCmd.(*callCmd)
+	verifGate("bindreply.afterLoad", c.sess)
 
 	// unlock: handleReply
 	c.callCmd.mu.Lock()
+	verifGate("bindreply.afterLock", c.sess)
 	c.input.SetServiceMethod(c.callCmd.output.ServiceMethod())
 	c.swap = c.callCmd.swap
 	c.callCmd.inputBodyCodec = c.GetBodyCodec()
@@ -621,6 +626,7 @@ func (c *handlerCtx) handleReply() {
 		if p := recover(); p != nil {
 			Errorf("panic:%v\n%s", p, goutil.PanicTrace(2))
 		}
+		verifGate("handlereply.beforeDone", c.sess)
 		c.callCmd.result = c.input.Body()
 		c.stat = c.callCmd.stat
 		c.callCmd.done()
